@@ -1,12 +1,114 @@
+import SelenModel.Model.Lower
+import SelenModel.Model.Engine
 import Driver.Util
+import Driver.CoreDriver
 /-
-(stub — to be filled in) ops with the prefix of this suite: model side.
+`lw.*` ops: the fluent-API lowering, model side.
 -/
 namespace Driver
+open Selen
 
 structure LowerSt where
-  dummy : Unit := ()
+  m : LModel := {}
+  /-- a posted tree could not be built with integer constants only (the builder folds
+  `int / int` to a float constant) -/
+  unsupported : Bool := false
 
-def lowerStep (st : LowerSt) (_ws : List String) : LowerSt × String := (st, "bad-op")
+partial def parseExpr : List String → Option (Expr × List String)
+  | "v" :: i :: r => i.toNat?.map (fun i => (.var i, r))
+  | "k" :: k :: r => (parseInt? k).map (fun k => (.val k, r))
+  | op :: r =>
+    if op ∈ ["+", "-", "*", "/", "%"] then do
+      let (a, r) ← parseExpr r
+      let (b, r) ← parseExpr r
+      let e := match op with
+        | "+" => Expr.add a b | "-" => Expr.sub a b | "*" => Expr.mul a b
+        | "/" => Expr.div a b | _ => Expr.mod a b
+      pure (e, r)
+    else none
+  | _ => none
+
+def parseOp : String → Option CmpOp
+  | "eq" => some .eq | "ne" => some .ne | "lt" => some .lt
+  | "le" => some .le | "gt" => some .gt | "ge" => some .ge | _ => none
+
+partial def parseCon : List String → Option (Con × List String)
+  | "cmp" :: op :: r => do
+    let op ← parseOp op
+    let (a, r) ← parseExpr r
+    let (b, r) ← parseExpr r
+    pure (.bin a op b, r)
+  | "and" :: r => do let (a, r) ← parseCon r; let (b, r) ← parseCon r; pure (.and a b, r)
+  | "or" :: r => do let (a, r) ← parseCon r; let (b, r) ← parseCon r; pure (.or a b, r)
+  | "not" :: r => do let (a, r) ← parseCon r; pure (.not a, r)
+  | _ => none
+
+/-- rebuild every expression of a constraint tree with the smart constructors -/
+def buildCon : Con → Option Con
+  | .bin l op r => do let l ← l.build; let r ← r.build; pure (.bin l op r)
+  | .and a b => do let a ← buildCon a; let b ← buildCon b; pure (.and a b)
+  | .or a b => do let a ← buildCon a; let b ← buildCon b; pure (.or a b)
+  | .not a => do let a ← buildCon a; pure (.not a)
+
+def showVar (i : Nat) : String := s!"VarId({i})"
+def showIntList (l : List Int) : String := "[" ++ ", ".intercalate (l.map toString) ++ "]"
+def showVarList (l : List Nat) : String := "[" ++ ", ".intercalate (l.map showVar) ++ "]"
+
+/-- Rust `Debug` rendering of the real propagator -/
+def showLP : LP → String
+  | .eqVV x y => s!"Eq \{ x: {showVar x}, y: {showVar y} }"
+  | .eqKV k y => s!"Eq \{ x: ValI({k}), y: {showVar y} }"
+  | .neVV x y => s!"NotEquals \{ x: {showVar x}, y: {showVar y} }"
+  | .leVV x y => s!"LessThanOrEquals \{ x: {showVar x}, y: {showVar y} }"
+  | .ltVV x y => s!"LessThanOrEquals \{ x: Next({showVar x}), y: {showVar y} }"
+  | .addVV x y s => s!"Add \{ x: {showVar x}, y: {showVar y}, s: {showVar s} }"
+  | .subVV x y s => s!"Add \{ x: {showVar x}, y: TimesPos(x: Opposite({showVar y}), scale: ValI(1)), s: {showVar s} }"
+  | .mulVV x y s => s!"Mul \{ x: {showVar x}, y: {showVar y}, s: {showVar s} }"
+  | .divVV x y s => s!"Div \{ x: {showVar x}, y: {showVar y}, s: {showVar s} }"
+  | .modVV x y s => s!"Modulo \{ x: {showVar x}, y: {showVar y}, s: {showVar s} }"
+  | .linEq cs xs c => s!"IntLinEq \{ coefficients: {showIntList cs}, variables: {showVarList xs}, constant: {c} }"
+  | .linLe cs xs c => s!"IntLinLe \{ coefficients: {showIntList cs}, variables: {showVarList xs}, constant: {c} }"
+  | .linNe cs xs c => s!"IntLinNe \{ coefficients: {showIntList cs}, variables: {showVarList xs}, constant: {c} }"
+
+/-- compact domain dump shared with the harness: long contiguous ranges as `[lo..hi#n]` -/
+def showDomC (d : Dom) : String :=
+  let s := sortInts d
+  match s.head?, s.getLast? with
+  | some lo, some hi =>
+    if s.length > 12 && (hi - lo + 1 == (s.length : Int)) then s!"[{lo}..{hi}#{s.length}]" else showInts s
+  | _, _ => showInts s
+
+def lowerStep (st : LowerSt) (ws : List String) : LowerSt × String :=
+  match ws with
+  | "lw.var" :: vs =>
+    match parseInts vs with
+    | some l => ({ st with m := (st.m.newVar ((sortInts l).eraseDups)).1 }, "ok")
+    | none => (st, "bad-op")
+  | "lw.post" :: r =>
+    match parseCon r with
+    | some (c, []) =>
+      match buildCon c with
+      | some c' => ({ st with m := st.m.postCon c' }, "ok")
+      | none => ({ st with unsupported := true }, "ok")
+    | _ => (st, "bad-op")
+  | ["lw.lower"] =>
+    if st.unsupported then (st, "unsupported") else
+    if st.m.panicked then (st, "panic") else
+    let m := st.m.lower
+    match m.validateErr with
+    | some e => (st, s!"error {e}")
+    | none =>
+    (st, s!"vars={"|".intercalate (m.doms.map showDomC)} props={" ;; ".intercalate (m.props.map showLP)}")
+  | ["lw.enum"] =>
+    if st.unsupported then (st, "unsupported") else
+    if st.m.panicked then (st, "panic") else
+    let m := st.m.lower
+    if m.validateErr.isSome then (st, "n=0 sols=") else
+    if m.props.all LP.supported then
+      let store : Store := fun i => m.doms.getD i [0]
+      let o := search m.doms.length none Policy.fifo driverFuel (m.props.map LP.toPK) store
+      (st, showOut o)
+    else (st, "unsupported")
+  | _ => (st, "bad-op")
 
 end Driver
